@@ -292,7 +292,9 @@ def corrupt_data(r, data):
     d = copy.deepcopy(data)
     entries = function_entries(d)
     kind = r.choice(['unknown_name', 'unknown_name', 'drop_required', 'drop_required', 'bad_shape', 'bad_shape', 'bad_colour', 'bad_action',
-                     'duplicate', 'extra_param', 'extra_param', 'delete_section', 'unknown_object'])
+                     'duplicate', 'extra_param', 'extra_param', 'delete_section', 'unknown_object',
+                     # legal variations of a shipped file (must build, and behave as the varied data describes)
+                     'nest_term', 'nest_term', 'sibling_param', 'sibling_param', 'spaces_differ', 'reorder_actions', 'zero_param'])
     if kind == 'unknown_name':
         e = at(d, r.choice(entries))
         e['name'] = r.choice([e['name'] + 'x', 'no_such_function', e['name'].upper(), ''])
@@ -326,6 +328,35 @@ def corrupt_data(r, data):
     elif kind == 'extra_param':
         e = at(d, r.choice(entries))
         e[r.choice(['unused_parameter', 'reward_onn', 'comment', 'num_things'])] = r.choice([1, 2.5, 'text', [1, 2], True])
+    elif kind == 'nest_term':
+        t = d['terminating_function']
+        inner = {'name': r.choice(['reduce_any', 'reduce_all']), 'terminating_functions': [t] + ([{'name': 'bump_into_wall'}] if r.random() < 0.5 else [])}
+        d['terminating_function'] = {'name': r.choice(['reduce_any', 'reduce_all']), 'terminating_functions': [inner, t]}
+    elif kind == 'sibling_param':
+        # a parameter name that a namesake in ANOTHER registry accepts (must be ignored here, or used if accepted here)
+        terms = [p for p in entries if p[0] == 'terminating_function']
+        e = at(d, r.choice(terms if terms and r.random() < 0.7 else entries))
+        e[r.choice(['reward', 'reward_on', 'reward_off', 'reward_closer'])] = r.choice([0.0, 0.0, -2.5, 3.0])
+    elif kind == 'spaces_differ':
+        sec = r.choice(['state_space', 'observation_space'])
+        extra_c = [c for c in COLORS if c not in d[sec]['colors']]
+        extra_o = [o for o in ('Beacon', 'Telepod', 'MovingObstacle', 'Key', 'Door') if o not in d[sec]['objects']]
+        if extra_c and (r.random() < 0.5 or not extra_o):
+            d[sec]['colors'] = list(d[sec]['colors']) + [r.choice(extra_c)]
+        elif extra_o:
+            d[sec]['objects'] = list(d[sec]['objects']) + [r.choice(extra_o)]
+        else:
+            return None
+    elif kind == 'reorder_actions':
+        a = list(d.get('action_space', ACTIONS))
+        r.shuffle(a)
+        d['action_space'] = a
+    elif kind == 'zero_param':
+        cands = [(p, k) for p in entries for k, v in at(d, p).items() if isinstance(v, float)]
+        if not cands:
+            return None
+        p, k = r.choice(cands)
+        at(d, p)[k] = r.choice([0.0, 0.0, 0])
     elif kind == 'delete_section':
         del d[r.choice(TOP_KEYS)]
     elif kind == 'unknown_object':
@@ -485,6 +516,8 @@ def _judge_corrupted(ctx, i, site, ck, bad, build_real, s, actions):
             # M-config is more permissive than the real factory somewhere the statement does not cover
             if ck in ('extra_param',):
                 ctx.violate('config', 'unaccepted_parameter_not_ignored', site, real.type, i, f'{ck}: {real!r}')
+            elif ck in ('nest_term', 'sibling_param', 'spaces_differ', 'reorder_actions', 'zero_param'):
+                ctx.violate('config', 'legal_variation_rejected', site, ck + '_' + real.type, i, f'{ck}: a legal variation of the shipped file was rejected: {real!r}')
             else:
                 ctx.undecided['real_rejects_what_mconfig_builds:' + ck] += 1
             return
